@@ -101,6 +101,7 @@ def handleBind (d : Sexp) (c : Sexp) : String :=
     match args.mapM parseCallArg with
     | none => "bad-request"
     | some args =>
+      if !d.wellFormed then "E:compile" else
       let f := d.toVal dv cv
       let gen := g.atom? == some "1"
       let bound : Option (Except Err Regs) :=
